@@ -19,7 +19,7 @@ THEOREMS = ['Pfst.C09b.' + t for t in (
     'need_pars_covers_table', 'need_pars_covers_table_starred', 'atom_never_table', 'atom_skip_sound', 'atom_table_free',
     'atom_prec_free', 'atom_int_only_attribute_value', 'needed_kept', 'needed_kept_core', 'needed_enclosed',
     'needed_enclosed_core', 'action_total', 'enclosedOrLine_sound', 'enclosedOrLine_sound_str',
-    'enc_table_sound', 'encWalk_true', 'encStep_true')]
+    'eol_always_sound', 'line_branch_needs', 'multiline_put_enclosed', 'starred_value_pars_kept', 'enc_table_sound', 'encWalk_true', 'encStep_true')]
 TRUSTED = [
     'modelled (Pfst/NeedPars.lean, kind sets / enclosure table regenerated into Pfst/Gen/Enclose.lean): FST._is_atom, '
     'FST._is_enclosed_in_parents, FST._is_enclosed_or_line (whole=False; out_lns variant included), need_pars(adding) and the '
@@ -48,7 +48,9 @@ LEVEL_NOTE = ('The put-time decision logic (atom test, enclosure by parents, enc
               'domain, on every node of corpus programs and, instrumented at run time, on every real replace of the slot x '
               'child x layout x form x pars-option space; theorems: the decision covers the table for non-atoms, the table '
               'never wants parentheses around atoms, needed parentheses are kept / added, the line-structure answer is sound '
-              'for every node kind, string literals included since /repo 48b6578 (finding C09-F1, fixed).')
+              'for every node kind, string literals included since /repo 48b6578 (finding C09-F1, fixed); a put that spans lines '
+              'where nothing encloses it is parenthesised for every kind of source, patterns (MatchValue no longer counted as '
+              'always enclosed, C09-F2) and Starred values (C09-F3) included.')
 
 # ---------------------------------------------------------------------------------------------------------------------
 # extraction
@@ -406,6 +408,13 @@ EXTRA_SNIPPETS = [
     'match a:\n    case b.\\\n  C(d,\n e):\n        pass\n',
     'x = a[b:\n   c]\n',
     'x = (*a,\n   b)\n',
+    'x = *(a +\n   b), c\n',
+    '*(a.\n  b), c = d\n',
+    'x = [*(a or\n   b), *c(d,\n e)]\n',
+    'for i in *(a +\n   b), c:\n    pass\n',
+    'match a:\n    case (-\n  2) | (b.\n c) | ("s"\n "t"):\n        pass\n    case (1 +\n  2j):\n        pass\n    case -2 | b.c | "s" "t":\n        pass\n',
+    'match a:\n    case [-\n  2, b.\n c]:\n        pass\n    case {"k": -\n  2}:\n        pass\n    case C(x=b. \\\n c):\n        pass\n',
+    'match a:\n    case (\"\"\"s\nt\"\"\" |\n  2):\n        pass\n    case b. \\\n c:\n        pass\n',
     'x = [*a +\n   b]\n',
     'match a:\n    case [b,\n          c]:\n        pass\n    case (b,\n          c):\n        pass\n    case b, \\\n         c:\n        pass\n',
     'match a:\n    case C(b,\n           c=d) | {1: e,\n           **r} | (f as  # c \\\n    g):\n        pass\n',
@@ -655,6 +664,28 @@ EXTRA_CHILDREN = {
     'TuplePar': '(p, q, r)', 'Tuple3': 'p, q, r', 'LambdaIf': 'lambda: p if q else r', 'Bool': 'True', 'NotIn3': 'p not in q',
     'IsNot3': 'p is not q',
 }
+# multi-line Starred sources whose value carries the parentheses that enclose the line break (C09-F3)
+EXTRA_CHILDREN.update({
+    'StarredParML': '*(p +\n q)', 'StarredParAttrML': '*(p.\nq)', 'StarredParOrML': '*(p or\n q)', 'StarredParCallML': '*(p(q,\n r))',
+    'StarredParPar': '*(p)', 'StarredContML': '*p + \\\n q',
+})
+EXTRA_SLOTS.update({
+    ('Assign.Tuple', 'elts'): ('x = a, b', [('body', 0), ('value', None), ('elts', 0)]),
+    ('AssignTarget.Tuple', 'elts'): ('a, b = x', [('body', 0), ('targets', 0), ('elts', 0)]),
+    ('For.Tuple', 'elts'): ('for i in a, b:\n    pass', [('body', 0), ('iter', None), ('elts', 0)]),
+    ('Yield.Tuple', 'elts'): ('def g():\n    yield a, b', [('body', 0), ('body', 0), ('value', None), ('value', None), ('elts', 1)]),
+})
+# multi-line patterns (C09-F2): values spread over lines without delimiters, bare and already parenthesised
+EXTRA_PAT_CHILDREN = {
+    'MatchValueNegML': '-\n 2', 'MatchValueComplexML': '1 +\n 2j', 'MatchValueAttrML': 'a.\nb', 'MatchValueStrML': '"a"\n"b"',
+    'MatchValueNegParML': '(-\n 2)', 'MatchValueAttrParML': '(a.\nb)', 'MatchValueStrParML': '("a"  # c\\\n"b")',
+    'MatchValueAttrCont': 'a. \\\nb', 'MatchAsML': 'p\n as q', 'MatchOrML': '7 |\n 8', 'MatchClassML': 'C(\n p)',
+    'MatchMappingML': '{1:\n p}', 'MatchSeqBrML': '[p,\n q]', 'MatchStrTriple': '"""a\nb"""',
+}
+EXTRA_PAT_SLOTS = {
+    ('MatchSequenceBare', 'patterns'): ('match s:\n    case 1, 2:\n        pass', [('body', 0), ('cases', 0), ('pattern', None), ('patterns', 1)]),
+    ('MatchOr.par', 'patterns'): ('match s:\n    case (1 | 2):\n        pass', [('body', 0), ('cases', 0), ('pattern', None), ('patterns', 1)]),
+}
 OPTS = ['auto', True, False]
 
 
@@ -777,8 +808,14 @@ def _action_case(arg):
     try:
         child_ast = C09._parse_child(csrc, pat)
     except SyntaxError:
-        res['skip'] = 'child layout does not parse'
-        return res
+        try:
+            if not pat:
+                raise
+            # a pattern spread over lines is only a pattern inside parentheses (they do not change the tree)
+            child_ast = ast.parse(f'match x:\n case (\n{csrc}\n): pass').body[0].cases[0].pattern
+        except SyntaxError:
+            res['skip'] = 'child layout does not parse'
+            return res
     if tgtpars:
         psrc = _add_tgt_pars(psrc, path)
         if psrc is None:
@@ -860,14 +897,19 @@ def action_jobs(ctx, full):
 
 
 # always run (also in the quick tier): the combinations behind listed findings (C09-F1, fixed in /repo 48b6578: must pass)
-ALWAYS = [(('Assign', 'value'), 'ImplicitStr3', 'comment_bs', 'src', 'auto', False),
+ALWAYS = [(('MatchOr', 'patterns'), 'MatchValueNegML', 'bare', 'src', 'auto', False),      # C09-F2
+          (('match_case', 'pattern'), 'MatchValueAttrParML', 'bare', 'fst', 'auto', False),  # C09-F2 (parentheses stripped)
+          (('Assign', 'targets'), 'StarredParAttrML', 'bare', 'src', 'auto', False),         # C09-F3
+          (('Expr', 'value'), 'StarredParML', 'bare', 'src', 'auto', False),                 # C09-F3
+          (('Assign', 'value'), 'ImplicitStr3', 'comment_bs', 'src', 'auto', False),
           (('Assign', 'value'), 'FStr3', 'comment_bs', 'src', 'auto', False),
           (('Add', 'right'), 'ImplicitStr3', 'comment_bs', 'fst', 'auto', True)]
 
 
 def _tables():
     import props.C09 as C09
-    return (({**C09.SLOTS, **EXTRA_SLOTS}, {**C09.CHILDREN, **EXTRA_CHILDREN}, False), (C09.PAT_SLOTS, C09.PAT_CHILDREN, True))
+    return (({**C09.SLOTS, **EXTRA_SLOTS}, {**C09.CHILDREN, **EXTRA_CHILDREN}, False),
+            ({**C09.PAT_SLOTS, **EXTRA_PAT_SLOTS}, {**C09.PAT_CHILDREN, **EXTRA_PAT_CHILDREN}, True))
 
 
 def _job(key, ck, lay, form, opt, t):
